@@ -13,22 +13,30 @@ prop(
               "owed-value lists with unique increasing payloads) over generated op histories on the real subscription "
               "engine in virtual time; violating histories are shrunk by op deletion",
     rule="case = a history of ops [create/delete subscription, create/delete item, write, timer(+dt), publish(ack mode), "
-         "publish-until-full, set publishing mode, set monitoring mode] over <=4 subscriptions x <=5 items x 12 variables, "
-         "30-200 ops, followed by a drain phase (publish requests + interval ticks until only keep-alives come back). Half "
+         "publish-until-full, set publishing mode, set monitoring mode] over <=4 subscriptions x <=5 items x 12 variables "
+         "(item shape: sampled at 100 ms with a large queue {no filter, DataChangeFilter trigger StatusValue, trigger "
+         "StatusValueTimestamp; no deadband}, publishing-interval sampled, small queue discard oldest / newest; timestamps to "
+         "return Neither / Source / Server / Both), 30-200 ops, followed by a drain phase (publish requests + interval ticks until only keep-alives come back). Half "
          "of the histories keep a full set of publish requests queued before every timer tick (verdict independent of "
-         "the late state), a quarter feed randomly, a quarter in bursts; 4 scripted minimal histories on shard 0. "
-         "distinct = (feed mode, simple?, buckets of the number of subscription / item creations and deletions, "
+         "the late state), a quarter feed randomly, a quarter in bursts; 5 scripted minimal histories on shard 0 "
+         "(one of them: every filter x timestamps-to-return shape on one variable, two writes, then cycles without a write). "
+         "distinct = (feed mode, simple?, buckets of the number of subscription / item creations, filtered items and deletions, "
+         "set of timestamps-to-return values used, "
          "publishing-mode and monitoring-mode changes, length bucket)",
     design_ref="4 C21",
     level_text="Every response taken from the session is matched against the FIFO of queued requests (request id and "
                "request handle, oldest first; BadTimeout faults exempt from the order), sequence numbers per "
                "subscription must strictly increase over notification messages, and every delivered value must be the "
-               "next owed sample of its item; after the drain phase no value sampled at a timer tick of a reporting "
+               "next owed sample of its item (a value coming again in a later cycle is a duplicate; for items with a data "
+               "change filter the signature names trigger and timestamps to return); after the drain phase no value sampled at a timer tick of a reporting "
                "item (queue 4096, sampling 100 ms = clock step) of a live, enabled subscription may be undelivered. "
                "Held means no such event and no panic on the explored histories. " + _ENGINE,
     level_note="Sound by construction: initial values, values only seen by a publish-triggered tick, values of "
                "small-queue or publishing-interval-sampled items (except the latest), and anything pending across item / "
-               "subscription deletion, publishing-mode or monitoring-mode changes are optional. Not covered: events, "
+               "subscription deletion, publishing-mode or monitoring-mode changes are optional. Every write stores a new "
+               "value with new source and server timestamps and nothing else touches a variable, so a deadband-less filter "
+               "with trigger StatusValue or StatusValueTimestamp selects exactly the writes and such items are judged like "
+               "unfiltered ones (trigger Status and deadbands belong to C25). Not covered: events, "
                "triggering links, ModifyMonitoredItems / ModifySubscription, sequence number wrap-around, "
                "max_notifications_per_publish. Lifetime count is 3000 so expiry (C22) never interferes.",
     shards={"quick": 4, "thorough": 16},
@@ -44,14 +52,22 @@ prop(
          "x publishing enabled/disabled x {no item, static item, item changing every tick} x (interval, tick step) in "
          "{(100,100), (200,100), (1000,1000)} for family 'fed' (requests always queued, 10*(K+1)+3 intervals) and family "
          "'starve' (N intervals without requests, N in {L-3..L+2, L+5}, then requests); plus seeded 'mixed' histories of "
-         "6-11 alternating fed / starved stretches. distinct = (family, K, L relative to 3K, interval, step, enabled, item "
-         "kind, N-L)",
+         "6-11 alternating fed / starved stretches; family 'paced': one publish request every P intervals sent just after "
+         "a timer tick (grid P in {1, 2, 3, K+1, L/2, L-2, L+3} x first request {at creation, 1 interval, P intervals after "
+         "creation: the subscription is then already late, every request is consumed on arrival and no timer tick ever finds "
+         "one queued} over 3L+2P+4 intervals, plus seeded ones with gaps steady / alternating P, P-1 / random in 1..P). "
+         "distinct = (family, K, L relative to 3K, interval, step, enabled, item kind, N-L; paced: P or P-L, first request at "
+         "creation or when late, jitter)",
     design_ref="4 C22",
     level_text="fed + enabled + no data: first message by 2 intervals, every gap between messages <= (K+1) intervals, run "
                "of 10*(K+1) intervals; any BadTimeout status change while a request was queued at every tick is a "
                "violation (enabled or not). starve: BadTimeout status change must not be delivered for N <= L-2 and must "
                "be for N >= L+1. mixed: expiry at most L-3 intervals after the previous publish response is premature, "
-               "no expiry after L+2 request-less intervals is overdue, keep-alive gaps judged inside fed stretches. Any "
+               "no expiry after L+2 request-less intervals is overdue, keep-alive gaps judged inside fed stretches. An "
+               "interval is request-less only if no request was queued at its timer tick and none arrived (and was answered "
+               "on arrival, late state) during it. paced: same verdicts, so with P <= L-2 the subscription must never expire "
+               "over the whole run and with P >= L+3 it must; the signature says whether every request was consumed on "
+               "arrival or some waited for the timer. Any "
                "panic is a violation. The unbounded 'keeps flowing' is shown for the run length only. " + _ENGINE,
     level_note="One subscription per session so that 'a request is available' is observable. N = L-1 and N = L are not "
                "judged (the statement allows one interval either way). Keep-alive gaps are not judged with publishing "
@@ -114,19 +130,27 @@ prop(
               "subscription engine; violating histories shrunk by op deletion",
     rule="case = a history of ops [write, feed+interval tick, publish with acknowledgements (one member, several members, "
          "already acknowledged, never sent {0, 1e6+x, u32::MAX}, unknown subscription, member twice with an unknown one in "
-         "between, unknown then member), republish probe (never sent, 0, unknown subscription), create subscription, delete "
-         "subscription], 20-160 ops, 1..3 subscriptions, acknowledgement rate 10/40/70/95 %; 2 scripted histories on shard "
-         "0 (every acknowledgement kind; past the ceiling without acknowledging). distinct = (ack rate, subscription "
+         "between, unknown then member), fill the publish request queue to the server's limit (one acknowledgement request in "
+         "six follows a fill and is therefore rejected with BadTooManyPublishRequests; requests also pile up to the limit on "
+         "their own), republish probe (never sent, 0, unknown subscription), create subscription, delete "
+         "subscription], 20-160 ops, 1..3 subscriptions, acknowledgement rate 10/40/70/95 %; 3 scripted histories on shard "
+         "0 (every acknowledgement kind; every kind first against a full queue, then admitted; past the ceiling without "
+         "acknowledging). distinct = (ack rate, queue fills, subscription "
          "creations / deletions, set of acknowledgement kinds used, republish probes, length bucket)",
     design_ref="4 C40",
     level_text="After every op every shadow member is re-requested: it must come back equal to the original message; a "
                "member whose acknowledgement was answered Good must answer BadMessageNotAvailable from then on; an "
                "acknowledgement of a number that is not retained must be answered BadSequenceNumberUnknown and leave all "
                "other members retrievable; an acknowledgement of a member that was just republished must be answered Good; "
+               "a publish request answered with a service fault (queue full) reports no acknowledgement result, so every "
+               "member it names stays a member (republished identical after the op) and its next acknowledgement in an "
+               "admitted request must be answered Good; "
                "un-acknowledged disappearance is tolerated only if the retained count exceeded four per subscription "
                "since the member was last seen. Held means none of these on the explored histories. " + _ENGINE,
     level_note="The eviction ceiling (2 x the publish request limit = 4 per live subscription) is the server's own constant; "
                "which members are evicted at the ceiling is not judged. Keep-alive messages may or may not be retained. "
-               "Publish requests are always available so the histories never depend on the late state.",
+               "Publish requests are always available so the histories never depend on the late state. A rejection is only "
+               "accepted as such (BadTooManyPublishRequests) when the queue held two requests per subscription before the "
+               "request; any other fault of an acknowledgement request makes the case inconclusive.",
     shards={"quick": 4, "thorough": 16},
 )
